@@ -95,18 +95,23 @@ EntOf(X, store, c)  == LET es == Ents(X, store) IN es[CHOOSE i \in 1..Len(es) : 
 (* kinds of request *)
 
 PagedKinds == {"deployments", "orders", "bids", "leases", "providers", "audits", "auditor"}   \* gRPC listings
-IterKinds  == {"eaccts", "epays"}                                                             \* escrow keeper With* iterators
+IterKinds  == {"eaccts", "epays",                                                             \* escrow keeper With* iterators
+               "k_deployments", "k_orders", "k_bids", "k_leases", "k_providers", "k_attests"}     \* With* of the other keepers
 ListKinds  == PagedKinds \cup IterKinds
-GetKinds   == {"deployment", "group", "order", "bid", "lease", "provider", "audit_owner", "audit_pair", "eacct", "epay"}
+\* keeper reads by a parent id (never "not found": the list may be empty): GetGroups, WithOrdersForGroup, WithBidsForOrder,
+\* BidCountForOrder, audit WithProvider; and LeaseForOrder (the lease of the order's active bid)
+SubKinds   == {"k_groups", "k_ordersforgroup", "k_bidsfororder", "k_bidcount", "k_attests_owner"}
+GetKinds   == {"deployment", "group", "order", "bid", "lease", "provider", "audit_owner", "audit_pair", "eacct", "epay",
+               "k_leasefororder"} \cup SubKinds
 
 KStore(kind) ==
-  CASE kind \in {"deployments", "deployment"} -> "dep"
-    [] kind = "group" -> "grp"
-    [] kind \in {"orders", "order"} -> "ord"
-    [] kind \in {"bids", "bid"} -> "bid"
-    [] kind \in {"leases", "lease"} -> "lease"
-    [] kind \in {"providers", "provider"} -> "prov"
-    [] kind \in {"audits", "auditor", "audit_owner", "audit_pair"} -> "attest"
+  CASE kind \in {"deployments", "deployment", "k_deployments"} -> "dep"
+    [] kind \in {"group", "k_groups"} -> "grp"
+    [] kind \in {"orders", "order", "k_orders", "k_ordersforgroup"} -> "ord"
+    [] kind \in {"bids", "bid", "k_bids", "k_bidsfororder", "k_bidcount"} -> "bid"
+    [] kind \in {"leases", "lease", "k_leases", "k_leasefororder"} -> "lease"
+    [] kind \in {"providers", "provider", "k_providers"} -> "prov"
+    [] kind \in {"audits", "auditor", "audit_owner", "audit_pair", "k_attests", "k_attests_owner"} -> "attest"
     [] kind \in {"eaccts", "eacct"} -> "eacct"
     [] kind \in {"epays", "epay"} -> "epay"
 
@@ -209,10 +214,29 @@ ListOpI(X, kind, f, pg, impl) ==
 
 ListOp(X, kind, f, pg) == ListOpI(X, kind, f, pg, Impl)
 
+\* the records a keeper read by parent id selects, in key order (prefix iteration)
+SubEnts(X, kind, c) ==
+  CASE kind = "k_groups" -> SelectSeq(Ents(X, "grp"), LAMBDA e : e.c[1] = c[1] /\ e.c[2] = c[2])
+    [] kind = "k_ordersforgroup" -> SelectSeq(Ents(X, "ord"), LAMBDA e : e.c[1] = c[1] /\ e.c[2] = c[2] /\ e.c[3] = c[3])
+    [] kind \in {"k_bidsfororder", "k_bidcount"} ->
+         SelectSeq(Ents(X, "bid"), LAMBDA e : e.c[1] = c[1] /\ e.c[2] = c[2] /\ e.c[3] = c[3] /\ e.c[4] = c[4])
+    [] kind \in {"k_attests_owner", "audit_owner"} -> SelectSeq(Ents(X, "attest"), LAMBDA e : e.c[1] = c[1])
+\* LeaseForOrder: the lease of the first ACTIVE bid of the order (found only if that lease exists)
+LeaseForOrder(X, c) ==
+  LET act == SelectSeq(SubEnts(X, "k_bidsfororder", c), LAMBDA e : e.rec.state = "active") IN
+  IF act = <<>> THEN <<>> ELSE IF act[1].c \in PresentCs(X, "lease") THEN <<act[1].c>> ELSE <<>>
+SubOp(X, kind, c) ==
+  LET es == SubEnts(X, kind, c) IN
+  IF kind = "k_bidcount" THEN [err |-> "", cs |-> <<>>, next |-> NoKey, total |-> Len(es)]
+  ELSE [err |-> "", cs |-> CsOfEnts(es), next |-> NoKey, total |-> 0]
+
 GetOp(X, kind, c) ==
   IF BadRequest(kind, c) THEN ErrResp(BadClass(kind))
+  ELSE IF kind \in SubKinds THEN SubOp(X, kind, c)
+  ELSE IF kind = "k_leasefororder" THEN
+    LET t == LeaseForOrder(X, c) IN IF t = <<>> THEN ErrResp("NotFound") ELSE [err |-> "", cs |-> t, next |-> NoKey, total |-> 0]
   ELSE IF kind = "audit_owner" THEN
-    LET es == SelectSeq(Ents(X, "attest"), LAMBDA e : e.c[1] = c[1]) IN
+    LET es == SubEnts(X, kind, c) IN
     IF es = <<>> THEN ErrResp("NotFound") ELSE [err |-> "", cs |-> CsOfEnts(es), next |-> NoKey, total |-> 0]
   ELSE IF c \notin PresentCs(X, KStore(kind)) THEN ErrResp("NotFound")
   ELSE IF JoinMissing(X, kind, c) THEN ErrResp("NotFound")       \* the escrow keeper's own not-found error
@@ -232,8 +256,10 @@ QOp(X, q) ==
 Join(X, store, id)  == [id |-> id, rec |-> StoreOf(X.S, store)[id], dg |-> StoreOf(X.D, store)[id]]
 Plain(X, store, c)  == LET id == IdOf(store, c) IN [c |-> c, rec |-> StoreOf(X.S, store)[id], dg |-> StoreOf(X.D, store)[id]]
 GroupsOf(X, c)      == CsOfEnts(SelectSeq(Ents(X, "grp"), LAMBDA e : e.c[1] = c[1] /\ e.c[2] = c[2]))
+Joined(kind) == kind \in {"deployments", "deployment", "bids", "bid", "leases", "lease"}    \* the gRPC responses that carry an escrow record
 ItemOf(X, kind, c) ==
   LET st == KStore(kind)  b == Plain(X, st, c) IN
+  IF ~Joined(kind) THEN b ELSE
   CASE st = "dep"   -> [c |-> b.c, rec |-> b.rec, dg |-> b.dg, acct |-> Join(X, "eacct", DAcc(IdOf("dep", c))),
                         groups |-> LET gs == GroupsOf(X, c) IN [i \in 1..Len(gs) |-> Plain(X, "grp", gs[i])]]
     [] st = "bid"   -> [c |-> b.c, rec |-> b.rec, dg |-> b.dg, acct |-> Join(X, "eacct", BAcc(IdOf("bid", c)))]
@@ -306,20 +332,28 @@ ListProp(name, X, q, r) ==
 
 \* Get: malformed address -> rejected; absent -> not found; present -> that record, joined
 GetTarget(X, kind, c) ==
-  IF kind = "audit_owner" THEN CsOfEnts(SelectSeq(Ents(X, "attest"), LAMBDA e : e.c[1] = c[1]))
+  IF kind \in SubKinds \cup {"audit_owner"} THEN CsOfEnts(SubEnts(X, kind, c))
+  ELSE IF kind = "k_leasefororder" THEN LeaseForOrder(X, c)
   ELSE IF c \in PresentCs(X, KStore(kind)) THEN <<c>> ELSE <<>>
 P_GetRejected(X, kind, c, r) == BadRequest(kind, c) => r.err \in {"InvalidArgument", "InvalidAddress"}
-P_GetNotFound(X, kind, c, r) == (~BadRequest(kind, c) /\ GetTarget(X, kind, c) = <<>>) => r.err = "NotFound"
+P_GetNotFound(X, kind, c, r) == (kind \notin SubKinds /\ ~BadRequest(kind, c) /\ GetTarget(X, kind, c) = <<>>) => r.err = "NotFound"
+\* keeper reads by parent id: exactly the parent's records, in key order (BidCountForOrder: their number)
+P_SubExact(X, kind, c, r) ==
+  kind \in SubKinds =>
+     /\ r.err = ""
+     /\ IF kind = "k_bidcount" THEN r.items = <<>> /\ r.total = Len(GetTarget(X, kind, c))
+        ELSE CsOf(r) = GetTarget(X, kind, c) /\ \A i \in 1..Len(r.items) : ItemOK(X, kind, r.items[i])
 P_GetFound(X, kind, c, r) ==
-  (~BadRequest(kind, c) /\ GetTarget(X, kind, c) # <<>> /\ \A x \in SeqRange(GetTarget(X, kind, c)) : ~JoinMissing(X, kind, x)) =>
+  (kind \notin SubKinds /\ ~BadRequest(kind, c) /\ GetTarget(X, kind, c) # <<>> /\ \A x \in SeqRange(GetTarget(X, kind, c)) : ~JoinMissing(X, kind, x)) =>
      /\ r.err = ""
      /\ CsOf(r) = GetTarget(X, kind, c)
      /\ \A i \in 1..Len(r.items) : ItemOK(X, kind, r.items[i])
-GetProps == <<"GetRejected", "GetNotFound", "GetFound">>
+GetProps == <<"GetRejected", "GetNotFound", "GetFound", "SubExact">>
 GetProp(name, X, q, r) ==
   CASE name = "GetRejected" -> P_GetRejected(X, q.kind, q.c, r)
     [] name = "GetNotFound" -> P_GetNotFound(X, q.kind, q.c, r)
     [] name = "GetFound"    -> P_GetFound(X, q.kind, q.c, r)
+    [] name = "SubExact"    -> P_SubExact(X, q.kind, q.c, r)
 
 (* A walk: w = [pages |-> <<[pg, r], ...>>, truncated].  Paging through with next_key until it is empty returns    *)
 (* every matching record exactly once, in key order.                                                             *)
@@ -403,17 +437,21 @@ Walks(X, kind) ==
   LET p == Plan(X, kind) IN {[op |-> "walk", kind |-> kind, f |-> f, limit |-> w[1], ct |-> w[2]] : f \in p.rich, w \in p.walks}
 
 \* Get: every present record, every one-field perturbation of it (absent value; malformed and empty address), one absent id
+ParentStore(kind) ==
+  CASE kind = "k_groups" -> "dep" [] kind = "k_ordersforgroup" -> "grp"
+    [] kind \in {"k_bidsfororder", "k_bidcount", "k_leasefororder"} -> "ord" [] OTHER -> KStore(kind)
 GetCoords(X, kind) ==
-  LET st == KStore(kind)
-      pres == IF kind = "audit_owner" THEN {<<c[1], 0, 0, 0, "">> : c \in PresentCs(X, "attest")} \cup {<<p, 0, 0, 0, "">> : p \in Providers}
+  LET st == ParentStore(kind)
+      pres == IF kind \in {"audit_owner", "k_attests_owner"} THEN {<<c[1], 0, 0, 0, "">> : c \in PresentCs(X, "attest")} \cup {<<p, 0, 0, 0, "">> : p \in Providers}
               ELSE PresentCs(X, st)
       flds == CASE st = "dep" -> {1, 2} [] st = "grp" -> {1, 2, 3} [] st = "ord" -> {1, 2, 3, 4} [] st \in {"bid", "lease", "epay"} -> {1, 2, 3, 4, 5}
-                [] st = "prov" -> {1} [] st = "attest" -> IF kind = "audit_owner" THEN {1} ELSE {1, 5} [] st = "eacct" -> {1, 2}
+                [] st = "prov" -> {1} [] st = "attest" -> IF kind \in {"audit_owner", "k_attests_owner"} THEN {1} ELSE {1, 5} [] st = "eacct" -> {1, 2}
       zero == <<"", 0, 0, 0, "">>
       abs  == [i \in 1..5 |-> IF i \in flds THEN (IF st \in {"prov", "attest"} /\ i = 1 THEN "pX" ELSE IF st = "attest" /\ i = 5 THEN "aX" ELSE AbsC[i]) ELSE zero[i]]
   IN pres \cup {abs}
      \cup {[c EXCEPT ![i] = abs[i]] : c \in pres, i \in flds}
-     \cup {[c EXCEPT ![i] = b] : c \in pres, i \in flds \cap {1, 5}, b \in {"!", ""}}
+     \cup (IF kind = "k_attests_owner" THEN {}        \* the keeper takes an sdk.Address: a malformed string cannot be passed
+          ELSE {[c EXCEPT ![i] = b] : c \in pres, i \in flds \cap {1, 5}, b \in {"!", ""}})
 Gets(X, kind) == {[op |-> "get", kind |-> kind, c |-> c] : c \in GetCoords(X, kind)}
 
 -----------------------------------------------------------------------------
